@@ -102,6 +102,10 @@ def worker_main(argv):
     t0 = time.time()
     budget = float(os.environ.get('RV_SHARD_BUDGET', '1e9'))
     try:
+        use_finite = getattr(mod, 'FINITE_MONITOR', True)
+        if use_finite:
+            from rv.instrument import finite
+            finite.install(getattr(mod, 'FINITE_EXCLUDE', ()))       # below the check's own wrappers
         if hasattr(mod, 'setup'):
             mod.setup()
     except Exception:
@@ -122,9 +126,16 @@ def worker_main(argv):
             r.setdefault('nontrivial', True)
             r['violations'] = [v.as_dict() if isinstance(v, Violation) else v
                                for v in r['violations']]
+            if use_finite:
+                bad, ncalls = finite.drain()
+                r['obs']['public_calls_scanned_for_nan'] = r['obs'].get('public_calls_scanned_for_nan', 0) + ncalls
+                for msg in sorted(set(bad))[:3]:
+                    r['violations'].append(vio('nonfinite_output', msg))
         except Exception:
             r = dict(violations=[], obs={}, nontrivial=False,
                      harness_error=traceback.format_exc())
+            if use_finite:
+                finite.drain()
         r['id'] = case.get('id')
         r['cls'] = case.get('cls', '-')
         r['hash'] = case_hash(case)
